@@ -83,15 +83,21 @@ pub fn decrypt_private_key(encrypted_data: &str, password: &str) -> Result<Strin
     let encrypted_data = hex::decode(encrypted_data)
         .map_err(|_| Error::FailedToDecryptKey(String::from("Encrypted data is invalid")))?;
 
-    let salt: [u8; SALT_LENGTH] = encrypted_data[..SALT_LENGTH]
+    let salt: [u8; SALT_LENGTH] = encrypted_data
+        .get(..SALT_LENGTH)
+        .ok_or_else(|| Error::FailedToDecryptKey(String::from("Could not find salt")))?
         .try_into()
         .map_err(|_| Error::FailedToDecryptKey(String::from("Could not find salt")))?;
 
-    let nonce: [u8; NONCE_LENGTH] = encrypted_data[SALT_LENGTH..SALT_LENGTH + NONCE_LENGTH]
+    let nonce: [u8; NONCE_LENGTH] = encrypted_data
+        .get(SALT_LENGTH..SALT_LENGTH + NONCE_LENGTH)
+        .ok_or_else(|| Error::FailedToDecryptKey(String::from("Could not find nonce")))?
         .try_into()
         .map_err(|_| Error::FailedToDecryptKey(String::from("Could not find nonce")))?;
 
-    let encrypted_private_key = &encrypted_data[SALT_LENGTH + NONCE_LENGTH..];
+    let encrypted_private_key = encrypted_data
+        .get(SALT_LENGTH + NONCE_LENGTH..)
+        .ok_or_else(|| Error::FailedToDecryptKey(String::from("Could not find encrypted key")))?;
 
     let mut key = [0; 32];
 
@@ -124,7 +130,8 @@ pub fn decrypt_private_key(encrypted_data: &str, password: &str) -> Result<Strin
         })?;
 
     // Create secret key from decrypted byte
-    Ok(String::from_utf8(decrypted_data.to_vec()).expect("not able to convert private key"))
+    String::from_utf8(decrypted_data.to_vec())
+        .map_err(|_| Error::FailedToDecryptKey(String::from("Decrypted key is not valid UTF-8")))
 }
 
 #[cfg(test)]
